@@ -40,6 +40,7 @@ RULE += (' Also: cached functions failing with BaseExceptions that are no Except
 RULE += (' Also: the caller modifies what cache_parameters() handed out; the cache keeps the parameters it was created with.')
 RULE += (" Also: instances that are copies of an instance whose cached method was already looked up; subclasses overriding a cached method with another cached method that awaits super()'s.")
 RULE += (" Also: caches over callable objects stored in a class body bind like functools' caches do.")
+RULE += (' Also: keyword-only calls next to positional calls whose tuples look like keyword items (f(x=v) / f(("x", v))).')
 ASSUMPTIONS = ["functools.lru_cache (C implementation of the running 3.12 interpreter) is the reference",
                "cache_discard has no stdlib twin: reference is the cross-validated model"]
 EXHAUSTIVE_SUBSPACES = 'all histories of length <= 4 (thorough: 5) over 7 operations for maxsize 1 and 2'
@@ -60,6 +61,10 @@ def rand_pattern(rng, small=False):
     kwargs = [[n, rng.choice(vals)] for n in names]
     if rng.random() < 0.03:
         args = [["L", 1]]  # unhashable
+    if rng.random() < 0.06:
+        # a keyword-only call and its positional look-alike: f(x=v) and f(("x", v)) - tuples shaped like keyword items
+        v = rng.choice([0, 1])
+        return rng.choice([[[], [["x", v]]], [[["T", "x", v]], []], [[], [["x", v], ["y", v]]], [[["T", "x", v], ["T", "y", v]], []]])
     return [args, kwargs]
 
 
